@@ -18,6 +18,13 @@ Sections:
              and all blocking variants (sync, tokio blocking, tokio async).
 * `refill` – a blocked `blocking_send` is woken because a batch was taken but the queue is full
              again before it retries: it must keep waiting and return `Err(item)` not before `T`.
+* `metrics`– the channel's metrics are sampled while other threads send: (i) a sampler parked inside its
+             sampling callback must not hold up `send` / `try_send` (decided on stamp order: the sends
+             return before the monitor releases the sampler; 3 of 3 repetitions before it is a
+             violation), (ii) a sampling callback that itself sends into the channel must complete.
+* `late`   – a blocked sender (T = 2 s) is woken at 1.6 s, loses the slot again and nothing more is
+             taken: it must hand the item back at about T, not after a fresh timeout (flagged only
+             if later than T + max(0.6 T, 1 s) in 3 of 3 repetitions).
 * `extreme`– every blocking send variant with an extreme timeout (1 h, u64::MAX/2 s, u64::MAX s,
              Duration::MAX) on a full queue whose parked receiver is released once the sender really
              waits: Ok, no panic, item delivered exactly once, the channel still works afterwards.
@@ -922,6 +929,341 @@ mod threads {
         r.nontrivial(&("flood-none", cap));
     }
 
+    // ---- metrics sampled concurrently with sends ----
+
+    #[derive(Clone, Copy, Debug, PartialEq, Eq, Hash)]
+    pub enum ParkAt {
+        FirstMetric,
+        QueueLength,
+    }
+
+    impl ParkAt {
+        pub const ALL: [ParkAt; 2] = [ParkAt::FirstMetric, ParkAt::QueueLength];
+
+        pub fn name(self) -> &'static str {
+            match self {
+                ParkAt::FirstMetric => "first-metric",
+                ParkAt::QueueLength => "queue_length",
+            }
+        }
+    }
+
+    /// Patience before the monitor releases the sampler anyway. The verdict is taken on stamp
+    /// ORDER (did the send return before the release?), the patience only bounds the wait.
+    const PATIENCE: Duration = Duration::from_millis(1200);
+    const REPS: usize = 3;
+
+    enum Rep {
+        Ok,
+        OrderViolated(String),
+        Inconclusive(String),
+    }
+
+    /// One repetition: a sampler parks inside its sampling callback; sends started while it is
+    /// parked must return before the monitor releases it.
+    fn slow_sampler_rep(r: &mut Report, g: &mut Rng, cap: usize, park_at: ParkAt) -> Rep {
+        let (sender, receiver) = bounded::<Chan>(cap);
+        let sender = Arc::new(sender);
+        let ms = sender.metric_source();
+        let gate = Gate::new(false);
+        let parked: Done<u64> = Done::new();
+        let sampler_done: Done<u64> = Done::new();
+        let sampler = {
+            let (gate, parked, sampler_done) = (gate.clone(), parked.clone(), sampler_done.clone());
+            thread::spawn(move || {
+                use emit::metric::Source as _;
+                let seen = std::cell::Cell::new(0u32);
+                let did_park = std::cell::Cell::new(false);
+                ms.sample_metrics(emit::metric::sampler::from_fn(|m| {
+                    let k = seen.get();
+                    seen.set(k + 1);
+                    let here = match park_at {
+                        ParkAt::FirstMetric => k == 0,
+                        ParkAt::QueueLength => m.name().to_string() == "queue_length",
+                    };
+                    if here && !did_park.get() {
+                        did_park.set(true);
+                        parked.set(stamp());
+                        gate.pass();
+                    }
+                }));
+                sampler_done.set(stamp());
+            })
+        };
+        if parked.wait(Duration::from_secs(10)).is_none() {
+            gate.open();
+            let _ = sampler.join();
+            drop(receiver);
+            return Rep::Inconclusive(format!("the sampler never reached its park point ({})", park_at.name()));
+        }
+        // senders started while the sampler is parked
+        let n_senders = 1 + g.usize(4);
+        let dones: Vec<Done<(u64, u64)>> = (0..n_senders).map(|_| Done::new()).collect();
+        let handles: Vec<_> = (0..n_senders)
+            .map(|ti| {
+                let (sender, done) = (sender.clone(), dones[ti].clone());
+                let n_ops = 1 + g.below(6);
+                let use_try = g.bool();
+                thread::spawn(move || {
+                    let start = stamp();
+                    for k in 0..n_ops {
+                        let id = ((ti as u64 + 1) << 32) | k;
+                        if use_try && k % 2 == 1 {
+                            let _ = sender.try_send(id);
+                        } else {
+                            sender.send(id);
+                        }
+                    }
+                    done.set((start, stamp()));
+                })
+            })
+            .collect();
+        let begin = Instant::now();
+        let mut results: Vec<Option<(u64, u64)>> = Vec::new();
+        for d in &dones {
+            let left = PATIENCE.checked_sub(begin.elapsed()).unwrap_or(Duration::ZERO);
+            results.push(d.wait(left.max(Duration::from_millis(1))));
+        }
+        let release = stamp();
+        gate.open();
+        r.observe("metrics:sends-started-while-sampler-parked", n_senders as u64);
+        // clean up (watchdogs only)
+        let mut stuck = false;
+        for (i, d) in dones.iter().enumerate() {
+            if results[i].is_none() {
+                results[i] = d.wait(Duration::from_secs(10));
+                stuck |= results[i].is_none();
+            }
+        }
+        let sampler_finished = sampler_done.wait(Duration::from_secs(10)).is_some();
+        if !stuck {
+            for h in handles {
+                let _ = h.join();
+            }
+        }
+        if sampler_finished {
+            let _ = sampler.join();
+        }
+        // if anything is still stuck it may hold the channel's lock for good: touching the channel
+        // again (snapshot, dropping the receiver) would hang the monitor itself
+        let pending_len = if sampler_finished && !stuck {
+            let n = sender.verif_snapshot().pending_len;
+            drop(receiver);
+            n
+        } else {
+            std::mem::forget(receiver);
+            0
+        };
+        let late: Vec<String> = results
+            .iter()
+            .enumerate()
+            .filter_map(|(i, res)| match res {
+                Some((_, ret)) if *ret < release => None,
+                Some((start, ret)) => Some(format!("sender {} started at stamp {} returned at {} > release {}", i, start, ret, release)),
+                None => Some(format!("sender {} never returned (release at {})", i, release)),
+            })
+            .collect();
+        if !late.is_empty() {
+            return Rep::OrderViolated(late.join("; "));
+        }
+        r.observe("metrics:sends-returned-before-sampler-release", n_senders as u64);
+        if pending_len > cap {
+            return Rep::OrderViolated(format!("{} items pending with capacity {} after sending next to a parked sampler", pending_len, cap));
+        }
+        if !sampler_finished {
+            return Rep::Inconclusive("the sampler did not finish after its release".into());
+        }
+        Rep::Ok
+    }
+
+    /// One repetition: the sampling callback itself sends into the same channel.
+    fn reentrant_sampler_rep(r: &mut Report, cap: usize) -> Rep {
+        let (sender, receiver) = bounded::<Chan>(cap);
+        let sender = Arc::new(sender);
+        let ms = sender.metric_source();
+        let done: Done<Result<(u64, u64, u64), String>> = Done::new();
+        {
+            let (sender, done) = (sender.clone(), done.clone());
+            let _ = thread::Builder::new().name("c09_reentrant_sampler".into()).spawn(move || {
+                use emit::metric::Source as _;
+                let res = catch(|| {
+                    let start = stamp();
+                    let n = std::cell::Cell::new(0u64);
+                    ms.sample_metrics(emit::metric::sampler::from_fn(|_m| {
+                        let k = n.get();
+                        n.set(k + 1);
+                        sender.send(2 * k);
+                        let _ = sender.try_send(2 * k + 1);
+                    }));
+                    (start, stamp(), n.get())
+                });
+                done.set(res);
+            });
+        }
+        let out = done.wait(PATIENCE);
+        let release = stamp();
+        if matches!(out, Some(Ok(_))) {
+            drop(receiver);
+        } else {
+            // a self-deadlocked sampler holds the channel's lock for good: dropping the receiver
+            // (which takes that lock) would hang the monitor itself
+            std::mem::forget(receiver);
+        }
+        match out {
+            Some(Ok((_, ret, n))) if ret < release => {
+                r.observe("metrics:reentrant-sends-completed", 2 * n);
+                if sender.verif_snapshot().pending_len > cap {
+                    return Rep::OrderViolated("pending exceeds capacity after re-entrant sends".into());
+                }
+                Rep::Ok
+            }
+            Some(Ok((start, ret, _))) => Rep::OrderViolated(format!("re-entrant sampling started at stamp {} returned at {} > release {}", start, ret, release)),
+            Some(Err(m)) => Rep::OrderViolated(format!("the re-entrant sampler panicked: {}", m)),
+            None => Rep::OrderViolated(format!("a send made from inside the sampling callback had not returned when the monitor gave up (release stamp {})", release)),
+        }
+    }
+
+    fn k_of_k(r: &mut Report, sig: &str, what: &str, case: Json, mut rep: impl FnMut(&mut Report) -> Rep) {
+        r.eval();
+        let mut details = Vec::new();
+        for _ in 0..REPS {
+            match rep(r) {
+                Rep::Ok => return,
+                Rep::Inconclusive(why) => {
+                    r.inconclusive(format!("{}: {}", sig, why));
+                    return;
+                }
+                Rep::OrderViolated(d) => details.push(d),
+            }
+        }
+        let mut case = case;
+        case["repetitions"] = json!(details);
+        r.violation(sig, &format!("{} ({} of {} repetitions): {}", what, REPS, REPS, details[0]), case);
+    }
+
+    pub fn metrics_cases(r: &mut Report, seed: u64, i: u64, cap: usize) {
+        for park_at in ParkAt::ALL {
+            let mut g = Rng::stream(seed, &[9, 7, i, park_at as u64]);
+            let case = json!({"section": "metrics", "variant": "slow-sampler", "seed": seed, "case": i, "capacity": cap, "parked_in": park_at.name()});
+            k_of_k(
+                r,
+                &format!("C09:metrics:send-waits-for-parked-sampler:parked-in={}", park_at.name()),
+                "plain sends started while a metrics sampler was parked inside its sampling callback returned only after the sampler was released",
+                case,
+                |r| slow_sampler_rep(r, &mut g, cap, park_at),
+            );
+            r.nontrivial(&("metrics-slow", cap, park_at, i));
+        }
+        let case = json!({"section": "metrics", "variant": "reentrant-sampler", "seed": seed, "case": i, "capacity": cap});
+        k_of_k(
+            r,
+            "C09:metrics:reentrant-sampler-send-does-not-return",
+            "a send made from inside the metrics sampling callback into the same channel did not return before the monitor gave up",
+            case,
+            |r| reentrant_sampler_rep(r, cap),
+        );
+        r.nontrivial(&("metrics-reentrant", cap, i));
+    }
+
+    // ---- a woken sender that loses the slot hands the item back at about T ----
+
+    const LATE_T: Duration = Duration::from_millis(2000);
+    const LATE_WAKE: Duration = Duration::from_millis(1600);
+
+    fn late_rep(r: &mut Report, cap: usize, kind: BlockKind) -> Rep {
+        let t = LATE_T;
+        let limit = t + std::cmp::max(t.mul_f64(0.6), Duration::from_secs(1));
+        let (sender, receiver) = bounded::<Chan>(cap);
+        let sender = Arc::new(sender);
+        let mut recv = HandRecv::new(receiver);
+        recv.set_stalled(true);
+        for k in 0..cap as u64 {
+            sender.send(10 + k);
+        }
+        // B: registered first; refills the queue the moment the batch is taken (the other senders win the slots)
+        let refilled = Arc::new(AtomicU64::new(0));
+        {
+            let (s2, refilled) = (sender.clone(), refilled.clone());
+            sender.when_empty(move || {
+                for k in 0..cap as u64 {
+                    if s2.try_send(500 + k).is_ok() {
+                        refilled.fetch_add(1, Ordering::SeqCst);
+                    }
+                }
+            });
+        }
+        let started: Done<Instant> = Done::new();
+        let done: Done<(Result<Result<(), Option<u64>>, String>, Duration)> = Done::new();
+        {
+            let (s3, started, done) = (sender.clone(), started.clone(), done.clone());
+            let _ = thread::Builder::new().name("c09_late_sender".into()).spawn(move || {
+                let start = Instant::now();
+                started.set(start);
+                let res = catch(|| kind.call(&s3, 999, t).map_err(|e| e.into_retryable()));
+                done.set((res, start.elapsed()));
+            });
+        }
+        let a_start = match started.wait(Duration::from_secs(10)) {
+            Some(s) => s,
+            None => return Rep::Inconclusive("the blocked sender thread never started".into()),
+        };
+        let mut registered = false;
+        while a_start.elapsed() < Duration::from_secs(1) {
+            if sender.verif_snapshot().on_take >= 2 {
+                registered = true;
+                break;
+            }
+            thread::sleep(Duration::from_millis(1));
+        }
+        // wake it before T: the batch is taken, B refills, the woken sender finds the queue full again
+        if let Some(left) = LATE_WAKE.checked_sub(a_start.elapsed()) {
+            thread::sleep(left);
+        }
+        let _ = recv.poll(1);
+        let woke_at = a_start.elapsed();
+        let out = done.wait(Duration::from_secs(60));
+        drop(sender);
+        recv.set_stalled(false);
+        let _ = recv.poll(400);
+        let (res, elapsed) = match out {
+            Some(o) => o,
+            None => return Rep::Inconclusive("the blocked sender did not return within the watchdog".into()),
+        };
+        let meaningful = registered
+            && refilled.load(Ordering::SeqCst) == cap as u64
+            && woke_at > std::cmp::max(t.mul_f64(0.6), Duration::from_secs(1))
+            && woke_at < t.mul_f64(0.95);
+        if !meaningful {
+            r.observe("late:setup-not-meaningful", 1);
+            return Rep::Inconclusive(format!("set-up too slow to be meaningful (woken at {:?})", woke_at));
+        }
+        r.observe("late:woken-before-T-with-queue-full-again", 1);
+        match res {
+            Ok(Err(Some(999))) if elapsed > limit => Rep::OrderViolated(format!(
+                "woken at {:?} on a refilled queue, handed the item back after {:?} with a timeout of {:?} (limit {:?})",
+                woke_at, elapsed, t, limit
+            )),
+            Ok(Err(Some(999))) => {
+                r.observe("late:handed-back-at-about-T", 1);
+                r.observe("late:return-after-T-ms", (elapsed.saturating_sub(t)).as_millis() as u64);
+                Rep::Ok
+            }
+            other => Rep::Inconclusive(format!("unexpected result {:?} (covered by the refill section)", other)),
+        }
+    }
+
+    pub fn late_case(r: &mut Report, cap: usize, kind: BlockKind) {
+        let case = json!({"section": "late", "capacity": cap, "blocking": kind.name(), "timeout_ms": LATE_T.as_millis() as u64, "woken_at_ms": LATE_WAKE.as_millis() as u64});
+        k_of_k(
+            r,
+            &format!("C09:{}:handed-back-late-after-losing-the-slot", kind.name()),
+            "a blocked sender that was woken before its timeout but found the queue full again handed the item back much later than its timeout",
+            case,
+            |r| late_rep(r, cap, kind),
+        );
+        r.nontrivial(&("late", cap, kind));
+    }
+
     // ---- extreme timeouts ----
 
     #[derive(Clone, Copy, Debug, PartialEq, Eq, Hash)]
@@ -1360,6 +1702,18 @@ fn main() {
                 }
             }
             #[cfg(not(miri))]
+            "metrics" => {
+                for k in 0..2 {
+                    threads::metrics_cases(&mut r, cseed, idx + k, cap);
+                }
+            }
+            #[cfg(not(miri))]
+            "late" => {
+                for kind in BlockKind::all() {
+                    threads::late_case(&mut r, cap, kind);
+                }
+            }
+            #[cfg(not(miri))]
             "extreme" => {
                 emit_batcher::verif::set_delay_divisor(1000);
                 let tmo = threads::Tmo::from_class(case.get("timeout").and_then(|v| v.as_str()).unwrap_or(""));
@@ -1419,6 +1773,31 @@ fn main() {
     {
         // worker threads sleep for real between polls: scale their delays
         emit_batcher::verif::set_delay_divisor(1000);
+        // the `late` cases mostly sleep (T = 2 s each): run them next to the other sections
+        let late_handles: Vec<std::thread::JoinHandle<Report>> = if want("late") {
+            let lcaps: Vec<usize> = if args.thorough() { vec![1, 2, 8] } else { vec![1 + (seed as usize % 3)] };
+            let mut hs = Vec::new();
+            for &cap in &lcaps {
+                for kind in BlockKind::all() {
+                    let mut child = r.child();
+                    hs.push(std::thread::spawn(move || {
+                        threads::late_case(&mut child, cap, kind);
+                        child
+                    }));
+                }
+            }
+            hs
+        } else {
+            Vec::new()
+        };
+        if want("metrics") {
+            let n = args.n(16, 160);
+            let caps = &caps;
+            par_cases(&mut r, &args, n, |i, r| {
+                let cap = caps[(i % caps.len() as u64) as usize];
+                threads::metrics_cases(r, seed, i, cap);
+            });
+        }
         if want("stall") {
             let mut cells = Vec::new();
             for &cap in &caps {
@@ -1471,6 +1850,12 @@ fn main() {
             for i in 0..n {
                 let cap = caps[(i % caps.len() as u64) as usize];
                 threads::conc_case(&mut r, seed, i, cap, ops_per);
+            }
+        }
+        for h in late_handles {
+            match h.join() {
+                Ok(child) => r.merge(child),
+                Err(_) => r.inconclusive("a `late` case thread panicked"),
             }
         }
         emit_batcher::verif::set_delay_divisor(1);
